@@ -153,6 +153,44 @@ impl GenerationSource {
     pub fn gen_f64(&mut self) -> (r: f64) { unimplemented!() }
 }
 
+// ---- post-emission rewrite (type confusion): shared between units core and mutv -------------------
+/// kind class of a value-pushing opcode byte per the statement of C16 (0 = not value pushing);
+/// hand-written from the opcode table, not from typeconfusion.rs
+pub open spec fn class_of(b: u8) -> int {
+    if b == 0x49 || b == 0x4a || b == 0x4b || b == 0x4d || b == 0x4c || b == 0x8a || b == 0x8b { 1 }
+    else if b == 0x46 || b == 0x47 { 2 }
+    else if b == 0x53 || b == 0x56 || b == 0x8c || b == 0x58 || b == 0x8d { 3 }
+    else if b == 0x42 || b == 0x43 || b == 0x8e || b == 0x54 || b == 0x55 { 4 }
+    else if b == 0x5d || b == 0x6c { 5 }
+    else if b == 0x29 || b == 0x74 || b == 0x85 || b == 0x86 || b == 0x87 { 6 }
+    else if b == 0x7d || b == 0x64 { 7 }
+    else if b == 0x4e { 8 }
+    else if b == 0x88 || b == 0x89 { 9 }
+    else { 0 }
+}
+/// one complete value-pushing opcode of class k (classes never contain EXT / buffer / FRAME opcodes)
+pub open spec fn replacement_ok(rep: Seq<u8>, k: int) -> bool {
+    k != 0 && rep.len() >= 1 && class_of(rep[0]) == k && enc_ok(ref_op_of_byte(rep[0]), rep)
+}
+
+/// a chunk that is exactly one well-formed opcode (identified by its first byte)
+pub open spec fn one_opcode(c: Seq<u8>) -> bool {
+    c.len() >= 1 && ref_code(ref_op_of_byte(c[0])) == c[0] && enc_ok(ref_op_of_byte(c[0]), c)
+}
+pub proof fn lemma_op_of_byte(op: OpcodeKind)
+    ensures ref_op_of_byte(ref_code(op) as u8) == op
+{
+}
+pub proof fn lemma_class_is_value_pusher(b: u8)
+    requires class_of(b) != 0
+    ensures
+        ref_code(ref_op_of_byte(b)) == b,
+        ref_op_of_byte(b) != OpcodeKind::Ext1 && ref_op_of_byte(b) != OpcodeKind::Ext2 && ref_op_of_byte(b) != OpcodeKind::Ext4,
+        ref_op_of_byte(b) != OpcodeKind::NextBuffer && ref_op_of_byte(b) != OpcodeKind::ReadOnlyBuffer,
+        ref_op_of_byte(b) != OpcodeKind::Frame && ref_op_of_byte(b) != OpcodeKind::Stop && ref_op_of_byte(b) != OpcodeKind::Proto,
+{
+}
+
 // ---- mutation gate and string payload operations (U8 in Verus) ------------------------------------
 /// f64 rate extremes as uninterpreted predicates (Verus has no float arithmetic); the contract of
 /// should_mutate over them is the one proved by the Kani harnesses u8_*_{arb,rand} ([C15] clauses).
